@@ -1,9 +1,28 @@
 //! vh-driver: conformance harness for the `scylla` crate (built with --cfg scylla_verif).
+mod c15;
 mod c18;
 mod c19;
 mod gate;
 
+static LAST_PANIC: std::sync::Mutex<String> = std::sync::Mutex::new(String::new());
+
+/// Message of the most recent panic caught in code under test (set by the panic hook).
+pub fn last_panic() -> String {
+    LAST_PANIC.lock().unwrap().clone()
+}
+
 fn main() {
+    std::panic::set_hook(Box::new(|info| {
+        let loc = info.location().map(|l| format!("{}:{}", l.file(), l.line())).unwrap_or_default();
+        let msg = if let Some(s) = info.payload().downcast_ref::<&str>() {
+            s.to_string()
+        } else if let Some(s) = info.payload().downcast_ref::<String>() {
+            s.clone()
+        } else {
+            "panic".to_string()
+        };
+        *LAST_PANIC.lock().unwrap() = format!("{} at {}", msg, loc);
+    }));
     let args: Vec<String> = std::env::args().skip(1).collect();
     if args.len() < 2 {
         eprintln!("usage: vh-driver <prop> <cmd> [args..]");
@@ -11,6 +30,8 @@ fn main() {
     }
     let rest = &args[2..];
     let rc = match (args[0].as_str(), args[1].as_str()) {
+        ("c15", "walk") => c15::cmd_walk(rest),
+        ("c15", "random") => c15::cmd_random(rest),
         ("c18", "run") => c18::cmd_run(rest),
         ("c18", "learn") => c18::cmd_learn(rest),
         ("c18", "stress") => c18::cmd_stress(rest),
